@@ -462,6 +462,18 @@ func Each() []*Scn {
 	return out
 }
 
+// F3AfterTimeout: a cursor position request the terminal never answers, then the
+// user presses F3 (legacy encoding CSI R, the same final byte as the report):
+// every one of those key presses is user input and must be delivered.
+func F3AfterTimeout(rng *rand.Rand) *Scn {
+	sc := &Scn{Kind: "f3-after-cpr-timeout", Mask: rng.Intn(1<<15) &^ (1 << 4), Alt: rng.Intn(2) == 0}
+	sc.Steps = append(sc.Steps, Step{Op: "call", What: "cpr", Reply: "never"})
+	f3 := []string{"\x1b[R", "\x1b[1;2R", "\x1b[1;5R"}
+	rs := []Report{key(f3[rng.Intn(3)], -1), key("a", 'a'), key(f3[rng.Intn(3)], -1)}
+	sc.Steps = append(sc.Steps, Step{Op: "inject", Reports: rs})
+	return sc
+}
+
 // Queries: the query APIs against reply timings, preceded/followed by unsolicited replies.
 func Queries(rng *rand.Rand) *Scn {
 	sc := &Scn{Kind: "query", Mask: rng.Intn(1<<15) | 1<<10 | 1<<11 | 1<<12, Alt: rng.Intn(2) == 0, Loose: true}
